@@ -266,6 +266,14 @@ _PARSER = [None]
 
 # components of LFRic infrastructure proxies that PSyclone passes directly
 COMPONENTS = {"ncell_3d": ("integer", "i_def", 0)}
+# parameters of the infrastructure passed by name (flux_direction_mod:
+# "integer(i_def), parameter :: x_direction, y_direction")
+# their kind (i_native) is the infrastructure's choice, not PSyclone's: the
+# kind of these actuals is left to the compiler (kind None = not compared)
+IMPORTED = {"x_direction": {"type": "integer", "kind": None, "rank": 0,
+                            "intent": None, "anykind": True},
+            "y_direction": {"type": "integer", "kind": None, "rank": 0,
+                            "intent": None, "anykind": True}}
 
 
 def _parse(text):
@@ -372,6 +380,9 @@ def call_interface(text, routine_name):
         raise HarnessError(f"{len(found)} calls of {routine_name}")
     sub, call = found[0]
     decls = declarations(sub)
+    if "flux_direction_mod" in text.lower():
+        for name, ent in IMPORTED.items():
+            decls.setdefault(name, dict(ent))
     actuals = call.items[1].items if call.items[1] is not None else []
     out = []
     for act in actuals:
@@ -447,6 +458,13 @@ _SAME_SUFFIX = ("undf_", "ndf_", "map_", "cbanded_map_",
                 "cma_indirection_map_")
 
 
+def _space_of(suffix):
+    """Function-space part of a mangled name: the mangled names of
+    ANY_*SPACE_n spaces end in the (differing) argument name."""
+    match = re.match(r"^(aspc\d+|adspc\d+)_", suffix)
+    return match.group(1) if match else suffix
+
+
 def role_token(name):
     """(role prefix, rest of the name) of an identifier or None."""
     base = name.split("(")[0].strip().lower()
@@ -462,8 +480,42 @@ def role_token(name):
     return None
 
 
+_DUMMY_ROLES = [
+    (re.compile(r"^field_\d+_stencil_size$"), "stencil_size"),
+    (re.compile(r"^field_\d+_stencil_dofmap$"), "stencil_dofmap"),
+    (re.compile(r"^field_\d+_direction$"), "stencil_direction"),
+    (re.compile(r"^field_\d+_max_branch_length$"), "stencil_max_branch"),
+    (re.compile(r"^field_\d+_"), "field"),
+    (re.compile(r"^op_\d+_ncell_3d$"), "op_ncell_3d"),
+    (re.compile(r"^op_\d+$"), "op"),
+    (re.compile(r"^cma_op_\d+$"), "cma_op"),
+    (re.compile(r"^cma_op_\d+_"), "cma_param"),
+    (re.compile(r"^[ril]scalar_\d+$"), "scalar"),
+]
+
+
+def dummy_role(name):
+    """Coarse role of a stub dummy (only used to name failure buckets)."""
+    tok = role_token(name)
+    if tok is not None:
+        return tok[0].rstrip("_")
+    for pat, role in _DUMMY_ROLES:
+        if pat.match(name):
+            return role
+    return "other"
+
+
+def _dedupe(items):
+    out, seen = [], set()
+    for bucket, msg in items:
+        if bucket not in seen:
+            seen.add(bucket)
+            out.append((bucket, msg))
+    return out
+
+
 def compare_call_stub(stub, call, which):
-    """Oracle 2: -> list of (bucket, message)."""
+    """Oracle 2: -> list of (bucket, message), one per distinct bucket."""
     if len(stub) != len(call):
         return [(f"o2:count:{which}",
                  f"{which} call passes {len(call)} arguments, the stub has "
@@ -471,66 +523,104 @@ def compare_call_stub(stub, call, which):
                  f"stub={[s['name'] for s in stub]}")]
     out = []
     for pos, (dum, act) in enumerate(zip(stub, call)):
+        bad = False
         for attr in ("type", "kind", "rank"):
+            if attr == "kind" and act.get("anykind"):
+                continue
             if dum[attr] != act[attr]:
-                out.append((f"o2:{attr}:{which}",
+                out.append((f"o2:{attr}:{dummy_role(dum['name'])}:{which}",
                             f"argument {pos + 1} of the {which} call: actual "
                             f"{act['text']} is {_sig(act)} but stub dummy "
                             f"{dum['name']} is {_sig(dum)}"))
+                bad = True
                 break
-    if out:
-        return out[:1]
-    for pos, (dum, act) in enumerate(zip(stub, call)):
+        if bad:
+            continue
         tdum, tact = role_token(dum["name"]), role_token(act["text"])
         if tdum is None or tact is None:
             continue
         if tdum[0] != tact[0] or (tdum[0] in _SAME_SUFFIX and
-                                  tdum[1] != tact[1]):
-            return [(f"o2:role:{which}",
-                     f"argument {pos + 1} of the {which} call: actual "
-                     f"{act['text']} is passed to stub dummy {dum['name']} "
-                     f"(same type, kind and rank but a different quantity)")]
-    return []
+                                  _space_of(tdum[1]) != _space_of(tact[1])):
+            out.append((f"o2:role:{dummy_role(dum['name'])}:{which}",
+                        f"argument {pos + 1} of the {which} call: actual "
+                        f"{act['text']} is passed to stub dummy "
+                        f"{dum['name']} (same type, kind and rank but a "
+                        f"different quantity)"))
+    return _dedupe(out)
 
 
-def compare_intents(pred, stub):
-    """Oracle 2 (intents of the stub against the metadata record)."""
-    if len(pred) != len(stub):
-        return []
-    for pos, (exp, dum) in enumerate(zip(pred, stub)):
-        if dum["intent"] != exp["intent"]:
-            what = (f"meta_args entry {exp['meta'] + 1}"
-                    if exp["meta"] is not None else exp["role"])
+_DATA_NAME = re.compile(r"^(?:field_(\d+)_\w+|op_(\d+)|cma_op_(\d+)|"
+                        r"[ril]scalar_(\d+))$")
+
+
+_STENCIL_NAME = re.compile(r"^field_\d+_(stencil_size|stencil_dofmap|"
+                           r"direction|max_branch_length)$")
+
+
+def compare_intents(rec, stub):
+    """Oracle 2 (intents of the stub against the metadata record). The
+    dummies that carry the data of meta_args entry <n> are recognised by
+    the names the stub generator gives them (field_<n>_<fs>[_v<k>],
+    op_<n>, cma_op_<n>, [ril]scalar_<n>); every other dummy must be
+    intent(in)."""
+    seen = {}
+    for pos, dum in enumerate(stub):
+        match = _DATA_NAME.match(dum["name"])
+        if _STENCIL_NAME.match(dum["name"]):
+            match = None
+        want, what = "in", "not a meta_args entry"
+        if match:
+            idx = int([g for g in match.groups() if g][0]) - 1
+            if not 0 <= idx < len(rec["args"]):
+                raise HarnessError(f"stub dummy {dum['name']}: no such "
+                                   f"meta_args entry")
+            seen[idx] = seen.get(idx, 0) + 1
+            acc = rec["args"][idx]["acc"]
+            want, what = expected_intent(acc), f"meta_args entry {idx + 1}, " \
+                f"{acc}"
+        if dum["intent"] != want:
             return [("o2:intent",
-                     f"stub dummy {pos + 1} ({dum['name']}, {what}) has "
-                     f"intent({dum['intent']}), expected "
-                     f"intent({exp['intent']})")]
+                     f"stub dummy {pos + 1} ({dum['name']}: {what}) has "
+                     f"intent({dum['intent']}), expected intent({want})")]
+    for idx, arg in enumerate(rec["args"]):
+        need = arg["vec"] if arg["kind"] == "field" else 1
+        if seen.get(idx, 0) != need:
+            return [("o2:data-dummies",
+                     f"meta_args entry {idx + 1} ({arg['kind']}) has "
+                     f"{seen.get(idx, 0)} data dummies in the stub "
+                     f"({[d['name'] for d in stub]}), expected {need}")]
     return []
 
 
 def compare_predicted(pred, actual, which, namekey):
-    """Oracle 3: documented (type, kind, rank) sequence against the stub
-    or the call."""
+    """Oracle 3: documented (type, kind, rank, name prefix) sequence against
+    the stub or the call; one entry per distinct bucket."""
     if len(pred) != len(actual):
         return [(f"o3:count:{which}",
                  f"documented rules give {len(pred)} arguments "
                  f"({[p['role'] for p in pred]}) but the {which} has "
                  f"{len(actual)}: {[a[namekey] for a in actual]}")]
+    out = []
     for pos, (exp, act) in enumerate(zip(pred, actual)):
+        bad = False
         for attr in ("type", "kind", "rank"):
+            if attr == "kind" and act.get("anykind"):
+                continue
             if exp[attr] is not None and exp[attr] != act[attr]:
-                return [(f"o3:{exp['role']}:{which}",
-                         f"argument {pos + 1} of the {which} "
-                         f"({act[namekey]}) is {_sig(act)}; the documented "
-                         f"rules give {exp['role']}: {_sig(exp)}")]
-    for pos, (exp, act) in enumerate(zip(pred, actual)):
-        if exp.get("name") and not act[namekey].lower().startswith(
-                exp["name"]):
-            return [(f"o3:name-{exp['role']}:{which}",
-                     f"argument {pos + 1} of the {which} is "
-                     f"{act[namekey]}; the documented rules give "
-                     f"{exp['role']} (named {'/'.join(exp['name'])}...)")]
-    return []
+                out.append((f"o3:{exp['role']}:{which}",
+                            f"argument {pos + 1} of the {which} "
+                            f"({act[namekey]}) is {_sig(act)}; the "
+                            f"documented rules give {exp['role']}: "
+                            f"{_sig(exp)}"))
+                bad = True
+                break
+        if not bad and exp.get("name") and not \
+                act[namekey].lower().startswith(exp["name"]):
+            out.append((f"o3:name-{exp['role']}:{which}",
+                        f"argument {pos + 1} of the {which} is "
+                        f"{act[namekey]}; the documented rules give "
+                        f"{exp['role']} (named {'/'.join(exp['name'])}...)"))
+    return _dedupe(out)
 
 
 _ERR = re.compile(r"^(\S+?\.f90):(\d+):(\d+):\s*$")
@@ -687,8 +777,8 @@ def evaluate(rec, wdir, infra, cfg, name="c21k"):
                 ("o2:stub-undeclared",
                  "stub dummies without declaration: " +
                  str([d["name"] for d in stub if d["type"] == "undeclared"])))
+        res["failures"] += compare_intents(rec, stub)
         if pred is not None:
-            res["failures"] += compare_intents(pred, stub)
             res["failures"] += compare_predicted(pred, stub, "stub", "name")
     for which, text in sorted(res["psy"].items()):
         call = call_interface(text, code)
@@ -737,8 +827,9 @@ def cls_mixed_cross2d(case):
     all stencil sizes get the declaration of the first one."""
     sten = _stencils(case)
     return ("cross2d" in sten and any(s != "cross2d" for s in sten) and
-            _bucket(case, "o1:stub:", "o1:strict-stub:", "o2:rank:",
-                    "o3:stencil-size:stub", "-call:Rank mismatch"))
+            _bucket(case, "o1:stub:Expression at must be scalar",
+                    "o2:rank:stencil_size:", "o3:stencil-size:stub",
+                    "-call:Rank mismatch"))
 
 
 def cls_evaluator_before_quadrature(case):
@@ -749,9 +840,23 @@ def cls_evaluator_before_quadrature(case):
         return False
     after = shapes[shapes.index("gh_evaluator") + 1:]
     return (bool(after) and
-            _bucket(case, "o2:rank:", "-call:Rank mismatch", "o3:gh_basis-",
+            _bucket(case, "o2:rank:basis:", "o2:rank:diff_basis:",
+                    "-call:Rank mismatch", "o3:gh_basis-",
                     "o3:gh_diff_basis-") and
             not case.get("bucket", "").endswith(":stub"))
+
+
+def cls_adjacent_face_nfaces_undeclared(case):
+    """PSy layer: adjacent_face needs nfaces_re_h; when reference-element
+    properties are requested but none of them concerns the horizontal
+    faces, nfaces_re_h is used and passed without being declared."""
+    rec = case["rec"]
+    props = rec.get("refelem") or []
+    return (bool(rec.get("mesh")) and bool(props) and
+            not any("horizontal" in p for p in props) and
+            _bucket(case, "o2:type:nfaces_re_h:",
+                    "-call:Symbol '_' at has no IMPLICIT",
+                    "o3:nfaces_re_h:dm-call", "o3:nfaces_re_h:nodm-call"))
 
 
 def cls_doc_xory1d_direction(case):
@@ -794,6 +899,8 @@ def cls_doc_cma_apply_indirection(case):
 CLASSIFIERS = {
     "stub_mixed_cross2d_stencils": cls_mixed_cross2d,
     "call_evaluator_before_quadrature": cls_evaluator_before_quadrature,
+    "psy_adjacent_face_nfaces_re_h_undeclared":
+        cls_adjacent_face_nfaces_undeclared,
     "doc_xory1d_direction_position": cls_doc_xory1d_direction,
     "doc_refelem_normals_type": cls_doc_refelem_type,
     "doc_meta_funcs_order": cls_doc_funcs_order,
